@@ -15,6 +15,9 @@ func (m *FixPeriodPlanner) IsMatrix() bool {
 }
 func (m *FixPeriodPlanner) Process(ctx *shared.PlannerContext,
 	in chan []shared.LogEntry) (chan []shared.LogEntry, error) {
+	if m.Duration.Nanoseconds() <= 0 || ctx.Step.Nanoseconds() <= 0 || ctx.To.Before(ctx.From) {
+		return nil, &shared.NotSupportedError{Msg: "range duration and step must be positive and start must not be after end"}
+	}
 	_from := ctx.From.UnixNano()
 	_to := ctx.To.UnixNano()
 	ctx.From = ctx.From.Truncate(m.Duration)
